@@ -1,17 +1,37 @@
 import Driver.Proto
 import Driver.Ops
-/-! `xmlmodel`: model side of the line protocol.  One request per line, one response per line. -/
+/-! `xmlmodel`: model side of the line protocol.  One request per line, one response per line.
+    A request that runs longer than the limit (a grammar translated from a source that backtracks
+    exponentially makes the model exponential too) is answered with `timeout` and the process ends
+    with status 3; the caller resumes with the next line (same convention as the Rust harness). -/
 open Driver
 
-partial def loop (h : IO.FS.Stream) (out : IO.FS.Stream) : IO Unit := do
+partial def waitFor (t : Task String) (limitMs : Nat) (waited : Nat) : IO (Option String) := do
+  if (← IO.hasFinished t) then return some t.get
+  if waited ≥ limitMs then return none
+  IO.sleep 20
+  waitFor t limitMs (waited + 20)
+
+partial def loop (h : IO.FS.Stream) (out : IO.FS.Stream) (limitMs : Nat) : IO Unit := do
   let line ← h.getLine
   if line.isEmpty then return ()
   let line := (line.dropEndWhile (fun c => c == '\n' || c == '\r')).toString
   let parts := line.splitOn "\t"
   let op := parts.headD ""
   let args := (parts.drop 1).map decode
-  out.putStrLn (dispatch op args)
-  out.flush
-  loop h out
+  let t ← IO.asTask (prio := .dedicated) (IO.lazyPure fun _ => dispatch op args)
+  let t' : Task String := t.map fun r => match r with | .ok s => s | .error _ => "model-error"
+  -- fast path: most requests finish at once
+  match ← waitFor t' limitMs 0 with
+  | some s =>
+    out.putStrLn s
+    out.flush
+    loop h out limitMs
+  | none =>
+    out.putStrLn "timeout"
+    out.flush
+    IO.Process.exit 3
 
-def main : IO Unit := do loop (← IO.getStdin) (← IO.getStdout)
+def main : IO Unit := do
+  let lim := ((← IO.getEnv "XMLRS_LINE_TIMEOUT_MS").bind String.toNat?).getD 60000
+  loop (← IO.getStdin) (← IO.getStdout) lim
